@@ -107,6 +107,8 @@ class Contract:
         self.drop_callee_ensures = d.get("drop_callee_ensures", {})   # callee contract -> ensures-name prefixes not assumed
         self.ctor = d.get("ctor", False)          # constructor: invariant asserted at exit only
         self.ghost_exit = d.get("ghost_exit", {}) # ghost assignments executed at every normal exit
+        self.ghost_raise = d.get("ghost_raise", {})   # ... and at every exceptional exit
+        self.inv_exclude_raise = d.get("inv_exclude_raise", [])
         self.check_frame = d.get("check_frame", True)
         self.site_asserts_for = d.get("site_asserts_for", {})      # caller's receiver class -> extra site assertions
         self.ensures_for_caller = d.get("ensures_for_caller", {})  # caller's receiver class -> extra assumed ensures
@@ -537,6 +539,12 @@ class Task:
                     self.oblige(st, f"{self.label}: invariant {k} at exit", self.spec_bool(st, t, env, self.old, self.receiver), "invariant")
         elif o.kind == Outcome.RAISE:
             env["exc"] = vstr(o.exc or "Exception")
+            for tgt, t in c.ghost_raise.items():
+                val = self.spec(st, t, env, self.old, self.receiver)
+                if tgt.startswith("self."):
+                    self.write_field(st, env["self"], tgt[5:], val)
+                else:
+                    st.globals[tgt] = coerce(val, self.ctx.globals[tgt])
             if c.no_raise:
                 self.oblige(st, f"{self.label}: {c.no_raise}", z3.BoolVal(False), "no_raise")
             elif c.raises is False:
@@ -544,7 +552,7 @@ class Task:
             for k, t in c.ensures_raise.items():
                 self.oblige(st, f"{self.label}: on raise {k}", self.spec_bool(st, t, env, self.old, self.receiver), "ensures_raise")
             if c.inv and c.inv_on_raise and self.receiver:
-                for k, t in self.ctx.invariants(self.receiver, c.inv_exclude_pre).items():
+                for k, t in self.ctx.invariants(self.receiver, list(c.inv_exclude_pre) + list(c.inv_exclude_raise)).items():
                     self.oblige(st, f"{self.label}: invariant {k} at raise", self.spec_bool(st, t, env, self.old, self.receiver), "invariant")
         else:
             raise Unsupported(f"{self.label}: {o.kind} outside a loop")
@@ -914,6 +922,7 @@ class Task:
     def dry_run_frame(self, node, st, it):
         """discover the contracts an arbitrary iteration may call: execute the body once with pruning off, keep nothing"""
         nob, npaths = len(self.obligations), self.paths
+        outer_collecting, outer_prune = getattr(self, "collecting", None), getattr(self, "no_prune", False)
         self.collecting = set()
         self.no_prune = True
         try:
@@ -939,8 +948,10 @@ class Task:
                         self.dry_local_sorts.setdefault(name, v.sort)
             return set(self.collecting)
         finally:
-            self.no_prune = False
-            self.collecting = None
+            if outer_collecting is not None:
+                outer_collecting |= self.collecting
+            self.no_prune = outer_prune
+            self.collecting = outer_collecting
             del self.obligations[nob:]
             self.paths = npaths
 
@@ -1457,6 +1468,8 @@ class Task:
         if isinstance(b, VPyTuple):
             return z3.Or(*[v_eq(a, x) for x in b.items]) if b.items else z3.BoolVal(False)
         if isinstance(b, V) and isinstance(b.sort, MapSort):
+            if isinstance(a, V) and isinstance(a.sort, OptSort):
+                return z3.And(z3.Not(a.comps[0]), map_has(b, coerce(V(a.sort.inner, a.comps[1:]), b.sort.key)))
             return map_has(b, coerce(a, b.sort.key))
         if isinstance(b, V) and b.sort == STR and a.sort == STR:
             return z3.Contains(b.z, a.z)
@@ -1580,6 +1593,10 @@ class Task:
                 self.oblige(st, f"{self.label}: safety: dict key is a str here (line +{node.lineno - self.fn.lineno})",
                             z3.Not(idx.comps[0]), "safety", node.lineno)
                 idx = vstr(idx.comps[1])
+            if isinstance(idx, V) and isinstance(idx.sort, OptSort):
+                self.oblige(st, f"{self.label}: safety: dict key is not None here (line +{node.lineno - self.fn.lineno})",
+                            z3.Not(idx.comps[0]), "safety", node.lineno)
+                idx = V(idx.sort.inner, idx.comps[1:])
             k = coerce(idx, cont.sort.key)
             has = map_has(cont, k)
             res = []
@@ -1824,7 +1841,8 @@ class Task:
                 for k, t in self.ctx.invariants(o.sort.cls).items():
                     s.assume(self.spec_bool(s, t, {"self": o}, pre, o.sort.cls))
             if c.inv and self_v is not None and c.kind == "repo" and (not raised or c.inv_on_raise):
-                for k, t in self.ctx.invariants(self_cls).items():
+                excl = (list(c.inv_exclude_pre) + list(c.inv_exclude_raise)) if raised else []
+                for k, t in self.ctx.invariants(self_cls, excl).items():
                     s.assume(self.spec_bool(s, t, {"self": self_v}, pre, self_cls))
             return r
 
